@@ -70,7 +70,103 @@ pub fn spaces(tier: Tier) -> Vec<Box<dyn Space>> {
     add("L2-stmt-seq", stmt_sequences(if t { 4 } else { 3 }));
     add("L3-control-flow", control_flow(t));
     add("L4-functions", functions(t));
+    add("L5-wide", wide_programs(t));
     v
+}
+
+// ---------------------------------------------------------------------------------------
+// L5 width: a valid program stays valid (and means the same) however many sibling statements,
+// elements, arguments, branches or interpolation pieces it has. Every width 1..=300 and a few
+// larger ones, per shape; nothing here nests deeper than a handful of levels.
+// ---------------------------------------------------------------------------------------
+
+fn wide_programs(thorough: bool) -> Gen<Vec<S>> {
+    let mut widths: Vec<u32> = (1..=300).collect();
+    widths.extend([320, 400, 511, 512, 513, 600, 1000]);
+    if thorough {
+        widths.extend([1500, 2000, 3000, 5000]);
+    }
+    const SHAPES: u8 = 11;
+    let mut cases: Vec<(u8, u32)> = Vec::new();
+    for sh in 0..SHAPES {
+        for &w in &widths {
+            cases.push((sh, w));
+        }
+    }
+    Gen::of(cases).map(|(shape, n)| wide_program(shape, n))
+}
+
+fn wide_program(shape: u8, n: u32) -> Vec<S> {
+    let k = |i: u32| num(&i.to_string());
+    let last = n - 1;
+    match shape {
+        // n declarations in a row
+        0 => {
+            let mut p: Vec<S> = (0..n).map(|i| S::Make(format!("v{i}"), Some(k(i)))).collect();
+            p.push(shout(bin(Op::Add, var("v0"), var(&format!("v{last}")))));
+            p
+        }
+        // one array literal with n elements
+        1 => vec![make("a", E::Arr((0..n).map(k).collect())), shout(meth(var("a"), "len", vec![])), shout(idx(var("a"), k(last)))],
+        // n print statements
+        2 => (0..n).map(|i| shout(k(i))).collect(),
+        // a lookup function of n `if` lines
+        3 => {
+            let mut body: Vec<S> = (0..n).map(|i| S::If(bin(Op::Eq, var("q"), k(i)), vec![S::Ret(Some(k(i * 2)))], None)).collect();
+            body.push(S::Ret(Some(st("none"))));
+            vec![func("look", &["q"], body), shout(call("look", vec![k(last)])), shout(call("look", vec![k(n)]))]
+        }
+        // a call whose three arguments are n-element arrays
+        4 => {
+            let arr = |off: u32| E::Arr((0..n).map(|i| k(i + off)).collect());
+            vec![
+                func("pick", &["x", "y", "z"], vec![S::Ret(Some(bin(Op::Add, bin(Op::Add, idx(var("x"), k(last)), idx(var("y"), k(0))), idx(var("z"), k(last)))))]),
+                shout(call("pick", vec![arr(0), arr(1000), arr(2000)])),
+            ]
+        }
+        // n method-call statements (identifier-led)
+        5 => {
+            let mut p = vec![make("a", E::Arr(vec![]))];
+            p.extend((0..n).map(|i| S::Expr(meth(var("a"), "push", vec![k(i)]))));
+            p.push(shout(meth(var("a"), "len", vec![])));
+            p.push(shout(idx(var("a"), k(last))));
+            p
+        }
+        // n assignments (identifier-led)
+        6 => {
+            let mut p = vec![make("x", k(0))];
+            p.extend((0..n).map(|_| set("x", bin(Op::Add, var("x"), k(1)))));
+            p.push(shout(var("x")));
+            p
+        }
+        // n string literals with an interpolation each, inside a loop body
+        7 => {
+            let mut body: Vec<S> = vec![set("i", bin(Op::Add, var("i"), k(1)))];
+            body.extend((0..n).map(|j| make(&format!("s{j}"), E::Str(vec![SP::Lit(format!("p{j}:")), SP::Var("i".into())]))));
+            body.push(shout(var(&format!("s{last}"))));
+            vec![make("i", k(0)), S::Loop(bin(Op::Lt, var("i"), k(2)), body)]
+        }
+        // n sibling blocks, each with its own declaration
+        8 => {
+            let mut p = vec![make("t", k(0))];
+            p.extend((0..n).map(|i| S::Block(vec![make("w", k(i)), set("t", bin(Op::Add, var("t"), var("w")))])));
+            p.push(shout(var("t")));
+            p
+        }
+        // n function definitions, each called once
+        9 => {
+            let mut p: Vec<S> = (0..n).map(|i| func(&format!("f{i}"), &[], vec![S::Ret(Some(k(i)))])).collect();
+            p.push(shout(bin(Op::Add, call("f0", vec![]), call(&format!("f{last}"), vec![]))));
+            p
+        }
+        // an n-way if / else-if ladder is not expressible flat; n two-armed conditionals instead
+        _ => {
+            let mut p = vec![make("c", k(0))];
+            p.extend((0..n).map(|i| S::If(bin(Op::Gt, k(i), k(n / 2)), vec![set("c", bin(Op::Add, var("c"), k(1)))], Some(vec![set("c", bin(Op::Sub, var("c"), k(1)))]))));
+            p.push(shout(var("c")));
+            p
+        }
+    }
 }
 
 // ---------------------------------------------------------------------------------------
